@@ -22,6 +22,7 @@ import (
 	"strconv"
 
 	"verifharness/enc"
+	"verifharness/hook"
 
 	"github.com/Comcast/sheens/core"
 	"github.com/Comcast/sheens/crew"
@@ -94,7 +95,7 @@ func msgID(m interface{}) string {
 }
 
 func install() {
-	sio.VerifHook = func(point string, args ...interface{}) {
+	hook.Set(func(point string, args ...interface{}) {
 		if cur == nil {
 			return
 		}
@@ -104,7 +105,7 @@ func install() {
 		case "present":
 			cur.events = append(cur.events, T{"present", args[0].(string), enc.V(canon(args[1]))})
 		}
-	}
+	})
 }
 
 func canon(x interface{}) interface{} {
